@@ -5,7 +5,8 @@
 package signdeb
 
 //@ func Sign
-//@   property C03 C08
+//@   property C03 C08 C11
+//@   before call builtin makechan(n): assert @result_channels_of_the_control_parser_have_room_so_the_helper_never_waits_for_a_receiver n >= 1
 //@   ghost matched bool = false
 //@   ghost msize int = 0
 //@   ghost mpos int = 68
@@ -22,3 +23,12 @@ package signdeb
 //@   property C11
 //@   nopanic
 //@   requires body != nil
+//@
+//@ func Sign$1
+//@   property C11
+//@   ghost drained bool = false
+//@   ghost sent int = 0
+//@   on call io.Copy(_, src) ret (n, e): drained = drained || src == iface(atcall(r))
+//@   before call builtin send(_, _): assert @the_pipe_is_drained_before_results_are_handed_over_so_the_digesting_side_never_blocks drained && sent <= 1
+//@   on call builtin send(_, _) ret (): sent = sent + 1
+//@   ensures @control_information_and_error_are_both_sent_once sent == 2 && drained
